@@ -848,7 +848,14 @@ class TokenizerCore:
             if self._scan_comment(word):
                 return
             if prev_space or single_token or not char:
-                self._advance(size - 1)
+                consumed = sql[self._current : self._current + size - 1]
+                if "\n" in consumed or "\r" in consumed:
+                    # A multi-word keyword that spans lines: step through it so that
+                    # the line / column counters see every line break
+                    for _ in range(size - 1):
+                        self._advance()
+                else:
+                    self._advance(size - 1)
                 word = word.upper()
                 self._add(self.keywords[word], text=word)
                 return
